@@ -1,6 +1,6 @@
 # property table for bin/mkmanifest: claim(id, level text, level note, DESIGN ref) / NA[id] = reason
 UC = "no check registered yet: harnesses for this property are still under construction in this session (see DESIGN.md section 4 for the plan)"
-for p in ["C01","C02","C03","C04","C05","C06","C07","C10","C11","C12","C13","C14","C17","C18","C19","C20"]:
+for p in ["C02","C05","C06","C07","C10","C11","C12","C13","C14","C17","C18","C19","C20"]:
     NA[p] = UC
 NA["C08"] = "needs symbolic execution of parser->translator->binder->planner->operators over a symbolic graph and query; far beyond what CBMC can encode for this code base (DESIGN.md section 5); the technique is not switched"
 NA["C09"] = "soundness of optimizer rewrites is semantic equivalence of two heap-allocated plan trees under execution on all graphs; neither rewrite nor execution is encodable within reach (DESIGN.md section 5)"
@@ -20,3 +20,25 @@ claim("C15",
       "Lengths and bit widths are concrete per query, element values fully symbolic. Outside the bound: longer sequences (63/64/65 element boundaries), dictionary encoding, codec selector, "
       "compressed property columns and adjacency chunks, succinct structures, RunLengthEncoding::decode for n>=2 (solver ran out of memory; optional thorough harnesses), arbitrary-byte decoding.",
       "DESIGN.md section 4 C15")
+
+claim("C01",
+      "Bounded model checking of the visibility kernel every read goes through: VersionInfo::is_visible_at/is_visible_to against the declarative snapshot rule for ALL u64 epochs and "
+      "transaction ids; VersionChain (3 symbolic versions + delete + rollback of one creator) returns the newest version the rule admits and never a rolled-back one; "
+      "chain gc never changes what a reader at or after the horizon sees.",
+      "Kernel level only so far: session-level histories over the real store (dirty reads through start-epoch stamping, unversioned properties/labels) and reads through the query "
+      "languages are outside this check's bound (DESIGN.md section 4 C01).",
+      "DESIGN.md section 4 C01")
+claim("C03",
+      "Bounded model checking of the real TransactionManager (begin/record_write/commit/abort/gc/state) on 8 concrete history skeletons of up to 8 steps and 3 transactions, with the "
+      "entities (all 64 id bits) and isolation levels symbolic, against a declarative first-committer-wins specification: a commit is refused iff another transaction committed after "
+      "it began and wrote a common entity; never because of a writer that committed before it began; gc at any of the explored points changes no verdict; refused commits change "
+      "nothing; commit epochs strictly increase; aborted writers block nobody; node and edge with equal ids never conflict.",
+      "Skeleton shapes are enumerated by hand (listed in the evidence), not all histories; 2 entities, <= 3 transactions, map stand-in capacity 4; commits from several threads are "
+      "outside (Kani has no threads; commit holds the table lock for its whole body).",
+      "DESIGN.md section 4 C03")
+claim("C04",
+      "Bounded model checking of the real TransactionManager's SSI validation on 6 concrete skeletons (write skew, mixed levels, read-only, non-overlapping, rw-antidependency, with gc), "
+      "entities and isolation levels symbolic, against the specification: SerializationFailure iff Serializable, has writes, not write-conflicted, and read an entity written by a "
+      "transaction that committed after it began. One open known finding (read-only Serializable transaction refused) is carved out and pinned by a witness harness.",
+      "Hand-enumerated skeleton shapes; <= 3 transactions, <= 3 entities; the global acyclicity argument (per-step rule => serial order) is not machine-checked here.",
+      "DESIGN.md section 4 C04")
